@@ -118,4 +118,17 @@ theorem tokens_hostText_dot (labels : List Bytes) (h : ∀ l ∈ labels, l ≠ [
     tokens (hostText labels ++ [46]) = labels := by
   rw [tokens_append_dot]; exact tokens_hostText labels h
 
+/-- for labels without NUL the decoded C string is the labels joined by '.' -/
+theorem nameText_eq_hostText (labels : List Bytes) (h : ∀ l ∈ labels, ∀ c ∈ l, c ≠ 0) :
+    nameText labels = hostText labels := by
+  by_cases hl : labels = []
+  · subst hl; decide
+  · obtain ⟨x, hx⟩ := dotted_last labels hl
+    have hne := dotted_ne_nil hl
+    have hnn := dotted_no_nul labels h
+    have hxn : ∀ c ∈ x, c ≠ 0 := fun c hc => hnn c (by rw [hx]; simp [hc])
+    unfold nameText nameOut cstr hostText
+    simp only [hne, ↓reduceIte]
+    rw [hx, List.dropLast_concat, takeWhile_until_nul x hxn]
+
 end SquidModel.Dns
